@@ -128,7 +128,7 @@ class Seq:
                 if x is n:
                     src = [it] + [LETS[y["lid"]] for y in hirq.walk(it) if y.get("k") == "path" and y.get("lid") in LETS]
                     names = frozenset((c.get("def") or "").split("::")[-1] for s_ in src for c in hirq.calls(s_) if (c.get("def") or "").startswith("structs::")) or frozenset(
-                        str(self.h["params"][i].get("name")) for i, p_ in enumerate(self.h["params"]) if p_.get("lid") in _local_lids(it)
+                        "param:" + str(self.h["params"][i].get("name")) for i, p_ in enumerate(self.h["params"]) if p_.get("lid") in _local_lids(it)
                     )
                     self._walk(body, guards, loops + [names])
                     return
